@@ -1,6 +1,7 @@
 import TFV.Properties.BinOps
 import TFV.Properties.Runs
 import TFV.Properties.Src.BinKernels
+import TFV.Properties.Src.BinKernels2
 #print axioms TFV.BinOps.C06_cross_parentage
 #print axioms TFV.BinOps.C06_cross_binary
 #print axioms TFV.BinOps.C06_empty
@@ -23,3 +24,8 @@ import TFV.Properties.Src.BinKernels
 #print axioms TFV.SrcTie.C06_src_one_point_crossover
 #print axioms TFV.SrcTie.C06_src_two_point_crossover
 #print axioms TFV.SrcTie.C06_src_uniform_crossover
+#print axioms TFV.SrcTie.C06_src_one_point_prefix_suffix
+#print axioms TFV.SrcTie.C06_src_flip_binary
+#print axioms TFV.SrcTie.C06_src_uniform_proportional_crossover
+#print axioms TFV.SrcTie.C06_src_uniform_rank_crossover
+#print axioms TFV.SrcTie.C06_src_empty_crossover
